@@ -904,7 +904,7 @@ func (c *Ctx) threeGPPRules(r *Report, prefix string, bf *buildersFile) {
 				}
 			}
 			for _, sg := range fm.Segs {
-				if sg.Kind == "param" && sg.Field == "param:nasPDU" && sg.At.isConst() && sg.At.C == bf.gppMapInt("eap5g_nas", "pdu_at") {
+				if sg.Kind == "param" && sg.Field == "param:"+paramName(fn, 2) && sg.At.isConst() && sg.At.C == bf.gppMapInt("eap5g_nas", "pdu_at") {
 					segOK = true
 				}
 			}
@@ -967,18 +967,18 @@ func (c *Ctx) threeGPPRules(r *Report, prefix string, bf *buildersFile) {
 				switch {
 				case off == "0" && (strings.HasPrefix(desc, "len:") || sized):
 					want["len"] = true
-				case off == "1" && desc == "param:pduSessionID":
+				case off == "1" && desc == "param:"+paramName(fn, 1):
 					want["pdu"] = true
-				case off == "2" && strings.HasPrefix(desc, "len:") && strings.Contains(desc, "qfiList"):
+				case off == "2" && strings.HasPrefix(desc, "len:") && strings.Contains(desc, paramName(fn, 2)):
 					want["count"] = true
 				case strings.HasPrefix(off, "3 ") && strings.HasPrefix(desc, "phi:"):
 					want["flags"] = true
-				case strings.HasPrefix(off, "4 ") && desc == "param:dscp":
+				case strings.HasPrefix(off, "4 ") && desc == "param:"+paramName(fn, 5):
 					want["dscp"] = true
 				}
 			}
 			for _, sg := range fm.Segs {
-				if sg.Kind == "param" && sg.Field == "param:qfiList" && sg.At.isConst() && sg.At.C == 3 {
+				if sg.Kind == "param" && sg.Field == "param:"+paramName(fn, 2) && sg.At.isConst() && sg.At.C == 3 {
 					want["qfis"] = true
 				}
 			}
@@ -1055,7 +1055,7 @@ func (c *Ctx) threeGPPRules(r *Report, prefix string, bf *buildersFile) {
 					for _, row := range fm.Rows {
 						if row.Off.isConst() && row.Off.C == 0 && row.Octets == 2 {
 							runs, _, _ := runsOf(row.Val)
-							if len(runs) == 1 && e.x.leaves[runs[0].Leaf].Key == "param:port" && runs[0].N == 16 {
+							if len(runs) == 1 && e.x.leaves[runs[0].Leaf].Key == "param:"+paramName(fn, 1) && runs[0].N == 16 {
 								okPort = true
 							}
 						}
@@ -1358,4 +1358,12 @@ func evalFlagsField(fn *ssa.Function, params map[int]bool, field string) (int64,
 		}
 	}
 	return 0, false
+}
+
+// paramName: the current name of parameter i (receiver = 0) of fn; rules refer to parameters by position.
+func paramName(fn *ssa.Function, i int) string {
+	if i < len(fn.Params) {
+		return fn.Params[i].Name()
+	}
+	return "?"
 }
